@@ -11,6 +11,7 @@ import PydapModel.Xdr
 import Proofs.XdrEnc
 import Proofs.XdrDec
 import Proofs.XdrSize
+import Proofs.EndToEndText
 namespace Pydap.C01
 open Pydap Pydap.Xdr
 
@@ -59,6 +60,51 @@ theorem C01_transport (z unz : Bytes → Bytes) (hz : ∀ b, unz (z b) = b)
   rw [hz]
   exact C01_end_to_end dds0 t d h hno
 
+
+/-! ### end to end through the response text: DDS printer (C07) ‖ `Data:` ‖ XDR (C05), split, DDS parser, decoder
+
+  `C01_end_to_end` above treats the DDS as an opaque byte string and runs the decoder with the *server's*
+  declaration.  The theorems below close that gap with the C07 model: the client's declaration is the one its
+  own DDS parser builds from the text it receives.  (`E2E.clientDecode`, `E2E.tmplOfDataset`:
+  PydapModel/EndToEnd.lean; lemmas: Proofs/EndToEndText.lean.) -/
+
+/-- **the client parses the DDS without its final newline** (`raw.split(b"\nData:\n", 1)[0]`): C07's round trip
+    holds on that text too — for every well-formed dataset the parsed tree is `normDs d` -/
+theorem C01_e2e_dds_without_final_newline (d : Dds.Dataset) (s0 : Dds.Text) (hwf : Dds.WFds d)
+    (hp : Dds.printDs d = .ok (s0 ++ ['\n'])) : Dds.parseDds s0 = .ok (Dds.normDs d) :=
+  E2E.parse_print_nonl d s0 hp hwf
+
+/-- every printed DDS ends with exactly that newline, so the hypothesis above is always met -/
+theorem C01_e2e_dds_ends_with_newline (d : Dds.Dataset) (s : Dds.Text) (hp : Dds.printDs d = .ok s) :
+    ∃ s0, s = s0 ++ ['\n'] := by
+  obtain ⟨b, _, e⟩ := E2E.printDs_ends_nl d s hp
+  exact ⟨_, e⟩
+
+/-- **the split needs no knowledge of positions**: if no newline of the DDS is followed by `D` (decidable,
+    `E2E.sepFree`; every DDS line starts with a space, `Dataset` or `}`), `safe_dds_and_data` cuts exactly
+    between DDS and data, whatever the data bytes are -/
+theorem C01_e2e_split (dds0 rest : Bytes) (h : E2E.sepFree dds0 = true) :
+    splitBody (dds0 ++ splitPattern ++ rest) = some (dds0, rest) :=
+  E2E.split_sepFree dds0 rest h
+
+/-- **declaration bridge**: server declaration (DAP2 type, shape, dimension names) → DDS text → `dds_to_dataset`
+    → the declaration `unpack_dap2_data` runs with: type and shape are preserved -/
+theorem C01_e2e_declaration_bridge (name : Dds.Text) (dims : List Dds.Text) (ty : Ty) (shape : List Nat)
+    (hd : dims = [] ∨ dims.length = shape.length) :
+    E2E.baseOfDds (Dds.normBase (E2E.ddsBase name dims ty shape) 0) = some (.base ty shape) :=
+  E2E.baseOfDds_normBase name dims ty shape hd
+
+/-- **the response text, any dataset**: for every well-formed dataset `d` (C07's domain) whose DDS text is ASCII with
+    no newline followed by `D`, and every declaration/value pair `(t, data)` the parsed DDS converts to, the client
+    — split, ASCII decode, DDS parse, declaration conversion, XDR decode — recovers the declared tree and exactly
+    the values from the body the server emits, with nothing left over -/
+theorem C01_e2e_response_text (d : Dds.Dataset) (s0 : Dds.Text) (t : Tmpl) (data : Data) (hwf : Dds.WFds d)
+    (hp : Dds.printDs d = .ok (s0 ++ ['\n'])) (hascii : ∀ c ∈ s0, c.toNat < 128)
+    (hsep : E2E.sepFree (E2E.encodeAscii s0) = true)
+    (ht : E2E.tmplOfDataset (Dds.normDs d) = some t) (hd : WF t data = true) :
+    E2E.clientDecode (body (E2E.encodeAscii (s0 ++ ['\n'])) t data) = .ok (Dds.normDs d, data, []) :=
+  E2E.clientDecode_body d s0 t data hwf hp hascii hsep ht hd
+
 /-! ### non-vacuity -/
 
 def exT : Tmpl := .struct [.base .uint16 [2, 2], .struct [.base .byte [], .base .string []],
@@ -72,5 +118,10 @@ example : WF exT exD = true := by decide
 example : decImpl exT (encImpl exT exD) = .ok (exD, []) := C01_roundtrip exT exD (by decide)
 example : ∀ i, i < [32, 125].length →
     ¬ splitPattern.isPrefixOf (([32, 125] ++ splitPattern ++ encImpl exT exD).drop i) = true := by decide
+
+example : E2E.sepFree (E2E.encodeAscii "Dataset {\n    Int16 a[m0 = 2];\n} ds;".toList) = true := by decide
+example : E2E.sepFree (E2E.encodeAscii "x\nData:".toList) = false := by decide
+example : E2E.baseOfDds (Dds.normBase (E2E.ddsBase "a".toList ["m0".toList, "m1".toList] .uint16 [2, 3]) 0)
+    = some (.base .uint16 [2, 3]) := C01_e2e_declaration_bridge _ _ _ _ (Or.inr rfl)
 
 end Pydap.C01
